@@ -157,6 +157,8 @@ type CRLSpec struct {
 	Number     int64
 	// Reason, when non-zero, is the CRL entry reasonCode carried by every entry (RFC 5280, 5.3.1).
 	Reason int
+	// RevokedAt is the revocation date of every entry (default: one month before T0).
+	RevokedAt time.Time
 }
 
 // MakeCRL builds a DER CRL.
@@ -170,7 +172,11 @@ func MakeCRL(s CRLSpec) []byte {
 	}
 	var rev []pkix.RevokedCertificate
 	for _, sn := range s.Revoked {
-		e := pkix.RevokedCertificate{SerialNumber: sn, RevocationTime: T0.AddDate(0, -1, 0)}
+		at := s.RevokedAt
+		if at.IsZero() {
+			at = T0.AddDate(0, -1, 0)
+		}
+		e := pkix.RevokedCertificate{SerialNumber: sn, RevocationTime: at}
 		if s.Reason != 0 {
 			e.Extensions = []pkix.Extension{{Id: asn1.ObjectIdentifier{2, 5, 29, 21}, Value: []byte{0x0a, 0x01, byte(s.Reason)}}}
 		}
